@@ -370,6 +370,8 @@ def prop_sampler(m, cls, nvars, support, use_cmsgen):
     1..support and every returned sample is a projected model."""
     CNF = m["cnf"].CNF
     want = {bits[:support] for bits in brute_models(cls, nvars)}
+    if not want:
+        return None
     seen = {}
     ug = m["ug"]
     real = ug.pyunigen.Sampler
@@ -387,7 +389,7 @@ def prop_sampler(m, cls, nvars, support, use_cmsgen):
 
     class Mod:
         Sampler = Spy
-    with scratch(), quiet(), patched(ug, "pyunigen", Mod):
+    with scratch(), quiet(), patched(ug, "pyunigen", Mod), patched(ug, "ensure_executable_available", no_binary):
         sols = m["su"].sample_uniform(4, CNF(cls), nvars, support, [], use_docker=False, use_cmsgen=use_cmsgen)
     if not use_cmsgen and want and seen.get("ss") != list(range(1, support + 1)):
         return {"problem": "sampling set handed to pyunigen", "sampling_set": seen.get("ss"), "support": support}
@@ -562,11 +564,7 @@ def run(ctx, res):
             r = guard(lambda: m["snu"].compute_solutions(p, sup, 1, None, False))
             want_sol = parse_sexp(outs2[2 * i + 1])[0]
             mo = model_file(outs3[i])
-            if not want_sol:
-                # an empty solution list is falsy: the loop stops without updating
-                ok = r == []
-            else:
-                ok = r == [want_sol] and mo is not None and tokenise(p.read_text()) == mo
+            ok = r == [want_sol] and mo is not None and tokenise(p.read_text()) == mo
             note("T4-iterate-step", ok, ("iterate", bools, sup, base))
             res.count(("solver-out", tuple(bools), sup), nontrivial=len(bools) > 0)
     # CLI-shaped output (several v lines, comments, junk)
@@ -691,8 +689,8 @@ def run(ctx, res):
         if style == "empty":
             cls.insert(rng.randint(0, len(cls)), [])
         used = max([abs(l) for c in cls for l in c] + [0])
-        fresh = used if style != "gaps" else rng.randint(1, used)
-        if style == "contig":
+        fresh = max(used, 1) if style != "gaps" else rng.randint(1, max(used, 1))
+        if style == "contig" and used > 0:
             cls.append(list(range(1, used + 1)))
         reqs = rand_reqs(rng, max(fresh, 1), 4) if style == "contig" else []
         sup = rng.randint(0, max(1, min(fresh, 12)))
